@@ -565,3 +565,31 @@ CASES += [
     /// # Motivation''')]),
 ]
 
+CASES += [
+    # second closure-splicing pass (after helper splicing): a generic private helper that CALLS the closure handed to it (R21-03)
+    dict(name='b-helper-calls-closure', kind='benign', props=['C15'], expect=[],
+         edits=[(WK, 'unsafe impl<T> RefCnt for Weak<T> {', '\nfn null_or_else<T, F: FnOnce() -> *const T>(empty: bool, convert: F) -> *mut T {\n    if empty {\n        ptr::null_mut()\n    } else {\n        convert() as *mut T\n    }\n}\n\nunsafe impl<T> RefCnt for Weak<T> {'),
+                (WK, '''        if Weak::ptr_eq(&Weak::new(), &me) {
+            ptr::null_mut()
+        } else {
+            Weak::into_raw(me) as *mut T
+        }''', '''        let empty = Weak::ptr_eq(&Weak::new(), &me);
+        null_or_else(empty, move || Weak::into_raw(me))''')]),
+    # ... and the same shape with the conversion that does not give the count away
+    dict(name='m-helper-calls-closure-as-ptr', kind='mutant', props=['C15'], expect=['C15'],
+         edits=[(WK, 'unsafe impl<T> RefCnt for Weak<T> {', '\nfn null_or_else<T, F: FnOnce() -> *const T>(empty: bool, convert: F) -> *mut T {\n    if empty {\n        ptr::null_mut()\n    } else {\n        convert() as *mut T\n    }\n}\n\nunsafe impl<T> RefCnt for Weak<T> {'),
+                (WK, '''        if Weak::ptr_eq(&Weak::new(), &me) {
+            ptr::null_mut()
+        } else {
+            Weak::into_raw(me) as *mut T
+        }''', '''        let empty = Weak::ptr_eq(&Weak::new(), &me);
+        null_or_else(empty, move || Weak::as_ptr(&me))''')]),
+]
+CASES += [
+    # wave 10 (C20): Serialize borrows the value through the DEFAULT strategy whatever strategy the container has (RwLock<()> writers never honour that debt)
+    dict(name='m-serialize-foreign-strategy', kind='mutant', props=['C20'], expect=['C20'],
+         edits=[(SE, 'use crate::{ArcSwapAny, RefCnt, Strategy};', 'use core::borrow::Borrow;\nuse crate::strategy::sealed::InnerStrategy;\nuse crate::{ArcSwapAny, DefaultStrategy, RefCnt, Strategy};'),
+                (SE, 'self.load().serialize(serializer)', '''let protected = unsafe { DefaultStrategy::default().load(&self.ptr) };
+        let current: &T = protected.borrow();
+        current.serialize(serializer)''')]),
+]
